@@ -228,7 +228,7 @@ func Expand(m Model, cache *stateCache, scn int, path []int, lo, hi int) *Result
 			continue
 		}
 		res.Cnt["transitions"]++
-		leaf := !m.Expandable(scn, a)
+		leaf := !m.Expandable(scn, a) || nx.Aux["leaf"] == "1" // (a model may end a branch at a state)
 		if !leaf {
 			cache.put(scn, append(append([]int{}, path...), a), nx)
 		}
